@@ -211,10 +211,14 @@ impl<C: ContentAddrStore> UnsealedState<C> {
             .pools
             .get(&PoolKey::new(Denom::Mel, Denom::Sym))
             .unwrap();
-        let (mel, _) = smpool.swap_many(0, fee_subsidy);
-        self.pools
-            .insert(PoolKey::new(Denom::Mel, Denom::Sym), smpool);
-        self.fee_pool = CoinValue(self.fee_pool.0.saturating_add(mel));
+        // a pool without reserves has no price to swap at (see the ERG/SYM pool below; on a faucet-enabled network any
+        // pool can be emptied with liquidity tokens made out of nothing)
+        if smpool.lefts > 0 && smpool.rights > 0 {
+            let (mel, _) = smpool.swap_many(0, fee_subsidy);
+            self.pools
+                .insert(PoolKey::new(Denom::Mel, Denom::Sym), smpool);
+            self.fee_pool = CoinValue(self.fee_pool.0.saturating_add(mel));
+        }
         // erg subsidy
         let erg_subsidy = if self.tip_909a() {
             tip909a_erg_subsidy
